@@ -2,7 +2,7 @@ CONSTANTS
   MaxIn = 2
   OutK = 1
   InK = 1
-  NEnt = 4
+  NEnt = 3
   MaxWS = 1
   MalWS = 0
   WS <- WS1
